@@ -387,7 +387,8 @@ def save_tree(tree, profile, cfg, tmpdir, tag):
             pk["value_map"] = resolve_value_map(["kind"], tree, profile) if profile.typed else {"kind": ["zz"]}
             tree.save(io.StringIO(), **pk)
     target = cfg.get("target", "str")
-    path = os.path.join(tmpdir, f"t{tag}.nutree")
+    # (the file name is the caller's choice: also a ".json" name for a compressed file)
+    path = os.path.join(tmpdir, f"t{tag}" + cfg.get("suffix", ".nutree"))
     comp = cfg.get("compression", False)
     if target in ("str", "path"):
         if comp is not False or cfg.get("pass_compression"):
@@ -486,6 +487,8 @@ def config(draw, profile_name):
             cfg["presave"] = True
     if draw(st.sampled_from([0, 0, 0, 1])):
         cfg["preload"] = True
+    if draw(st.sampled_from([0, 0, 1])):
+        cfg["suffix"] = draw(st.sampled_from([".json", ".JSON", ".zip", ""]))
     return cfg
 
 
